@@ -86,6 +86,12 @@ def joinNL : List (List Char) → List Char
 def lines (s : String) : List String := (splitNL s.toList).map String.ofList
 def nonEmptyLines (s : String) : List String := (lines s).filter (· ≠ "")
 def joinLines (l : List String) : String := "\n".intercalate l
+
+/-- how `Data.UnmarshalXML` accumulates `<instructions/>` elements: the first non-empty
+text starts the value, later ones are appended after a newline -/
+def accInstr (cur : String) : List String → String
+  | [] => cur
+  | l :: ls => accInstr (if cur = "" then l else cur ++ "\n" ++ l) ls
 def normTitle (s : String) : String := String.ofList (spaceRepl s.toList)
 
 /-! ### writer -/
@@ -178,13 +184,15 @@ def fits (typ : String) (v : Val) : Option Bool :=
   else if typ = "list-multi" then some (match v with | .strs _ => true | _ => false)
   else none
 
+/-- the type of the first field with that name (`""` when there is none) -/
+def fieldTyp (fs : List Field) (id : String) : String :=
+  match findField fs id with | some x => x.typ | none => ""
+
 /-- `Data.Set` -/
 def set (f : Form) (vals : Vals) (id : String) (v : Val) : SetRes × Vals :=
-  let fld := findField f.fields id
-  let typ := match fld with | some x => x.typ | none => ""
-  if typ = "fixed" then (.err, vals)
-  else if fits typ v = some false then (.err, vals)
-  else (.ok fld.isSome, (id, v) :: vals)
+  if fieldTyp f.fields id = "fixed" then (.err, vals)
+  else if fits (fieldTyp f.fields id) v = some false then (.err, vals)
+  else (.ok (findField f.fields id).isSome, (id, v) :: vals)
 
 /-- the strings a stored value puts into a field of type `typ` (the type switch of
 `Data.TokenReader`) -/
@@ -251,8 +259,7 @@ def decodeKids : Form → List Node → Option Form
   | acc, .elem n as ks :: rest =>
     if n.loc = "title" then decodeKids { acc with title := textOf ks } rest
     else if n.loc = "instructions" then
-      decodeKids { acc with instructions :=
-        if acc.instructions = "" then textOf ks else acc.instructions ++ "\n" ++ textOf ks } rest
+      decodeKids { acc with instructions := accInstr acc.instructions [textOf ks] } rest
     else if n.loc = "field" then decodeKids { acc with fields := acc.fields ++ [decodeField as ks] } rest
     else none
 
@@ -272,7 +279,7 @@ def canonField (jn : JidNorm) (f : Field) : Field :=
 
 def canonForm (jn : JidNorm) (frm : Form) : Form :=
   { title := normTitle frm.title
-    instructions := joinLines (nonEmptyLines frm.instructions)
+    instructions := accInstr "" (nonEmptyLines frm.instructions)
     typ := frm.typ
     fields := frm.fields.map (canonField jn) }
 
